@@ -21,7 +21,12 @@
 static inline int mzd_compare_rows_revlex(const mzd_t *A, rci_t a, rci_t b) {
   word const *rowa = mzd_row_const(A, a);
   word const *rowb = mzd_row_const(A, b);
-  for (wi_t j = A->width - 1; j >= 0; j--) {
+  /* only the column bits of the last word belong to A (it may be a window) */
+  word const last_a = rowa[A->width - 1] & A->high_bitmask;
+  word const last_b = rowb[A->width - 1] & A->high_bitmask;
+  if (last_a < last_b) return 0;
+  if (last_a > last_b) return 1;
+  for (wi_t j = A->width - 2; j >= 0; j--) {
     if (rowa[j] < rowb[j]) return 0;
     if (rowa[j] > rowb[j]) return 1;
   }
